@@ -58,6 +58,31 @@ load_stream_fd(struct stream *stream, int fd)
 		return -1;
 	}
 
+#ifdef OVNI_VERIF
+	/* Verification hook: load the stream in an exact-size heap buffer so
+	 * AddressSanitizer sees any access outside the stream data. */
+	if (getenv("OVNI_VERIF_HEAPBUF") != NULL) {
+		stream->buf = malloc((size_t) st.st_size);
+		if (stream->buf == NULL) {
+			err("malloc failed:");
+			return -1;
+		}
+		size_t verif_done = 0;
+		while (verif_done < (size_t) st.st_size) {
+			ssize_t verif_n = pread(fd, stream->buf + verif_done,
+					(size_t) st.st_size - verif_done,
+					(off_t) verif_done);
+			if (verif_n <= 0) {
+				err("pread failed:");
+				return -1;
+			}
+			verif_done += (size_t) verif_n;
+		}
+		stream->size = st.st_size;
+		return 0;
+	}
+#endif
+
 	int prot = PROT_READ | PROT_WRITE;
 	stream->buf = mmap(NULL, (size_t) st.st_size, prot, MAP_PRIVATE, fd, 0);
 
